@@ -239,9 +239,14 @@ CHECKS = {
             'graph), with dependees/initial/terminal read through the abstraction (dependees_reads, '
             'initial_terminal_spec); graft_preserves_order: when the nested graph is acyclic and shares no node with the outer '
             'graph, a plain node has to come after another one in the grafted graph exactly when it had to before (one '
-            'round of flatten). flatten (the loop of grafts over the nested store), '
-            'transitive reduction/closure, dependees, initial/terminal, <=, == are in the executable model and checked '
-            'against DepGraph and against the set-level oracle on every run, but their theorems are not proved yet.',
+            'round of flatten). closure_spec / reduction_spec: on acyclic graphs transitive_closure gives an edge exactly where '
+            'there was a path and transitive_reduction keeps exactly the edges that no longer path doubles, both with the same '
+            'nodes and the same reachability, with the most / the fewest edges among all graphs of that reachability '
+            '(closure_most, reduction_fewest); the recursive visits compute reachability (cloVisit_spec, redVisit_spec, '
+            'budget size+1 sufficient by a rank from the topological order) and the in-place loops are handled by an '
+            'invariant per processed position. flatten (the loop of grafts over the nested store), recursive '
+            'dependencies, <=, == are in the executable model and checked against DepGraph and against the set-level '
+            'oracle on every run, without theorems.',
             'Trusted: Lean kernel + standard axioms; correspondence sampled (exhaustive <= 4 nodes in thorough); node '
             'identity = Python id(); topological order compared for validity, not equality; graft/flatten only on '
             'acyclic expansions; c16_pinned_refuted keeps the pinned graft (A19) refuted.',
